@@ -564,3 +564,99 @@ func ruleCollectorState(c *Ctx) {
 		c.Ob(rule, "readers", nil, false, "fewer than 4 readers found: anchor missing")
 	}
 }
+
+// ruleDebugTermination (B2): a statement list ends with the sentinel spinInterrupt, which signals the return
+// only when no signal at all is pending (Signals.IsEmpty()); while single-stepping Signals.Debug is set, so
+// a body that falls off its end must be terminated by the single-step executor itself: either the sentinel's
+// guard ignores the Debug signal, or singleStep raises SigReturn when env.IP is the last index of env.Code.
+func ruleDebugTermination(c *Ctx) {
+	rule := "B2-debug-termination"
+	pk := c.P.Pkg("fast")
+	info := pk.TypesInfo
+	sp := c.P.Func("fast.spinInterrupt")
+	ss := c.P.Func("fast.singleStep")
+	ex := c.P.Func("fast.Code.Exec")
+	if sp == nil || ss == nil || ex == nil {
+		c.Ob(rule, "fast.spinInterrupt", nil, false, "anchor functions not found")
+		return
+	}
+	// Code.Exec appends the sentinel
+	sentinel := false
+	inspectCalls(ex.Body, func(call *ast.CallExpr) {
+		if id := identOf(call.Fun); id != nil && id.Name == "append" && len(call.Args) == 2 {
+			if a := identOf(call.Args[1]); a != nil && info.Uses[a] != nil && info.Uses[a].Name() == "spinInterrupt" {
+				sentinel = true
+			}
+		}
+	})
+	c.Ob(rule, "fast.Code.Exec/sentinel", ex, sentinel, "every executable statement list ends with the sentinel spinInterrupt")
+	setsReturn := func(body ast.Node) (*ast.AssignStmt, bool) {
+		var found *ast.AssignStmt
+		ast.Inspect(body, func(n ast.Node) bool {
+			if as, ok := n.(*ast.AssignStmt); ok && len(as.Lhs) == 1 && len(as.Rhs) == 1 {
+				if _, isSync := fieldSel(info, as.Lhs[0], "Sync"); isSync {
+					if o := usedObj(info, as.Rhs[0]); o != nil && o.Name() == "SigReturn" {
+						found = as
+					}
+				}
+			}
+			return true
+		})
+		return found, found != nil
+	}
+	// (A) sentinel guard independent of Debug
+	okA := false
+	if as, ok := setsReturn(sp.Body); ok {
+		for _, anc := range enclosingStack(sp.Body, as) {
+			if ifs, isIf := anc.(*ast.IfStmt); isIf && containsNode(ifs.Body, as) {
+				usesIsEmpty := false
+				inspectCalls(ifs.Cond, func(call *ast.CallExpr) {
+					if fn := calleeOf(info, call); fn != nil && fn.Name() == "IsEmpty" {
+						usesIsEmpty = true
+					}
+				})
+				mentionsDebug := false
+				ast.Inspect(ifs.Cond, func(n ast.Node) bool {
+					if s, ok := n.(*ast.SelectorExpr); ok && s.Sel.Name == "Debug" {
+						mentionsDebug = true
+					}
+					return true
+				})
+				okA = !usesIsEmpty && !mentionsDebug
+			}
+		}
+	}
+	// (B) singleStep raises SigReturn at the last index, before executing the statement
+	okB := false
+	if as, ok := setsReturn(ss.Body); ok {
+		for _, anc := range enclosingStack(ss.Body, as) {
+			ifs, isIf := anc.(*ast.IfStmt)
+			if !isIf || !containsNode(ifs.Body, as) {
+				continue
+			}
+			dead := false
+			for _, a := range andAtoms(ifs.Cond) {
+				if tv, ok := info.Types[a]; ok && tv.Value != nil && tv.Value.String() == "false" {
+					dead = true
+				}
+			}
+			for _, a := range andAtoms(ifs.Cond) {
+				b, ok := unparen(a).(*ast.BinaryExpr)
+				if !ok || b.Op != token.EQL || dead {
+					continue
+				}
+				_, isIP := fieldSel(info, b.X, "IP")
+				if sub, ok := unparen(b.Y).(*ast.BinaryExpr); isIP && ok && sub.Op == token.SUB {
+					if v, isC := constInt(info, sub.Y); isC && v == 1 {
+						if call, ok := unparen(sub.X).(*ast.CallExpr); ok && len(call.Args) == 1 && exprString(call.Fun) == "len" {
+							if _, isCode := fieldSel(info, call.Args[0], "Code"); isCode {
+								okB = true
+							}
+						}
+					}
+				}
+			}
+		}
+	}
+	c.Ob(rule, "fast.singleStep/end-of-code", ss, okA || okB, "a body that falls off its end terminates while single-stepping: the sentinel signals the return independently of Signals.Debug, or singleStep raises SigReturn when env.IP == len(env.Code)-1")
+}
